@@ -27,7 +27,7 @@ import lib
 import drive
 import drive_cmdline as dc
 
-THEOREMS_TEXT = ['RB.Cmdline.c03_launch_text_direct', 'RB.Cmdline.c03_fmt_unparse',
+THEOREMS_TEXT = ['RB.Cmdline.c03_command_exact', 'RB.Cmdline.c03_fmt_unparse',
                  'RB.Cmdline.c03_two_phase_eq_direct_partial']
 THEOREMS_LAUNCH = ['RB.Cmdline.c03_env_noninterference', 'RB.Cmdline.c03_env_exact',
                    'RB.Cmdline.c03_invocation_number']
